@@ -185,3 +185,187 @@ Proof.
       apply sorted_keys_in in Hx' as [_ Ex]. lra.
 Qed.
 
+
+(** the selected indices come nearest first *)
+Theorem k_nearest_ascending k pts q :
+  StronglySorted (fun i j => dist2 pts q i <= dist2 pts q j) (k_nearest k pts q).
+Proof.
+  unfold k_nearest.
+  apply StronglySorted_map with (R := key_le).
+  - intros x y Hx Hy L. apply key_le_fst in L.
+    apply In_firstn_full in Hx. apply In_firstn_full in Hy.
+    apply sorted_keys_in in Hx as [_ Ex]. apply sorted_keys_in in Hy as [_ Ey]. lra.
+  - apply StronglySorted_firstn. apply sorted_keys_sorted.
+Qed.
+
+(** in general position the set of the k nearest is unique *)
+Lemma closest_set_incl k pts q A B :
+  general_position pts q -> closest_set k pts q A -> closest_set k pts q B -> incl A B.
+Proof.
+  intros G (NA & LA & VA & CA) (NB & LB & VB & CB) x Hx.
+  destruct (in_dec Nat.eq_dec x B) as [Hin|Hn]; [exact Hin|exfalso].
+  destruct (incl_or_witness A B) as [I|[y [Hy Hny]]].
+  - apply Hn. eapply (NoDup_length_incl NB); [|exact I|exact Hx]. lia.
+  - pose proof (CA x y Hx (VB y Hy) Hny) as L1.
+    pose proof (CB y x Hy (VA x Hx) Hn) as L2.
+    apply (G x y (VA x Hx) (VB y Hy)); [intros ->; contradiction|lra].
+Qed.
+
+Theorem closest_set_unique k pts q sel :
+  general_position pts q -> closest_set k pts q sel -> Permutation sel (k_nearest k pts q).
+Proof.
+  intros G H. pose proof (k_nearest_spec k pts q) as K.
+  apply NoDup_Permutation; [apply H|apply K|].
+  intros x. split; intros Hx.
+  - eapply closest_set_incl; [exact G|exact H|exact K|exact Hx].
+  - eapply closest_set_incl; [exact G|exact K|exact H|exact Hx].
+Qed.
+
+(** the boolean checker decides [closest_set] *)
+Lemma memb_spec x l : memb x l = true <-> In x l.
+Proof.
+  unfold memb. rewrite existsb_exists. split.
+  - intros [y [Hy E]]. apply Nat.eqb_eq in E. subst. exact Hy.
+  - intros H. exists x. split; [exact H|apply Nat.eqb_refl].
+Qed.
+
+Lemma nodupb_spec l : nodupb l = true <-> NoDup l.
+Proof.
+  induction l as [|x t IH]; cbn [nodupb]; [split; [constructor|reflexivity]|].
+  rewrite andb_true_iff, negb_true_iff, IH. fold (memb x t). split.
+  - intros [H1 H2]. constructor; [|exact H2]. intros Hin. apply memb_spec in Hin. congruence.
+  - intros H. inversion H as [|? ? Hn Hd]; subst. split; [|exact Hd].
+    destruct (memb x t) eqn:E; [|reflexivity]. apply memb_spec in E. contradiction.
+Qed.
+
+Theorem closest_setb_spec k pts q sel :
+  closest_setb k pts q sel = true <-> closest_set k pts q sel.
+Proof.
+  unfold closest_setb, closest_set.
+  rewrite !andb_true_iff, nodupb_spec, Nat.eqb_eq, !forallb_forall.
+  split.
+  - intros [[[H1 H2] H3] H4]. repeat split; try assumption.
+    + intros i Hi. apply Nat.ltb_lt. apply H3; exact Hi.
+    + intros i j Hi Hj Hn. specialize (H4 i Hi). rewrite forallb_forall in H4.
+      specialize (H4 j). rewrite in_seq in H4. specialize (H4 ltac:(lia)).
+      apply orb_true_iff in H4 as [M|L]; [apply memb_spec in M; contradiction|].
+      apply Qleb_spec in L. exact L.
+  - intros (H1 & H2 & H3 & H4). repeat split; try assumption.
+    + intros i Hi. apply Nat.ltb_lt. apply H3; exact Hi.
+    + intros i Hi. apply forallb_forall. intros j Hj. apply in_seq in Hj.
+      destruct (memb j sel) eqn:M; [reflexivity|]. cbn [orb]. apply Qleb_spec.
+      apply H4; [exact Hi|lia|]. intros Hin. apply memb_spec in Hin. congruence.
+Qed.
+
+(** ** median_distance: the first of the k+1 neighbours of a data point is the point itself *)
+Definition distinct_points (pts : list pt) : Prop :=
+  forall i j, (i < length pts)%nat -> (j < length pts)%nat -> i <> j ->
+    ~ d2 (nth i pts p0) (nth j pts p0) == 0.
+
+(** [rest]: min(k, n-1) distinct valid indices other than [i], none farther from
+    point [i] than any other point left out *)
+Definition closest_others (k : nat) (pts : list pt) (i : nat) (rest : list nat) : Prop :=
+  NoDup rest /\ ~ In i rest /\ length rest = Nat.min k (length pts - 1) /\
+  (forall a, In a rest -> (a < length pts)%nat) /\
+  (forall a j, In a rest -> (j < length pts)%nat -> j <> i -> ~ In j rest ->
+     dist2 pts (nth i pts p0) a <= dist2 pts (nth i pts p0) j).
+
+Lemma sorted_head_min {A} (R : A -> A -> Prop) (h : A) t :
+  StronglySorted R (h :: t) -> forall x, In x t -> R h x.
+Proof. intros S x Hx. inversion S as [|? ? _ F]; subst. rewrite Forall_forall in F. apply F; exact Hx. Qed.
+
+Theorem self_is_first k pts i :
+  distinct_points pts -> (i < length pts)%nat ->
+  exists rest, k_nearest (S k) pts (nth i pts p0) = i :: rest /\ closest_others k pts i rest.
+Proof.
+  intros Dp Hi. set (q := nth i pts p0).
+  pose proof (k_nearest_spec (S k) pts q) as K.
+  pose proof (sorted_keys_sorted pts q) as Hsort.
+  pose proof (sorted_keys_length pts q) as Ls.
+  assert (Hhead: exists h t, sorted_keys pts q = h :: t /\ snd h = i).
+  { destruct (sorted_keys pts q) as [|h t] eqn:Es; [cbn in Ls; lia|].
+    exists h, t. split; [reflexivity|].
+    destruct (sorted_keys_has pts q i Hi) as [d [Hin Ed]]. rewrite Es in Hin.
+    assert (Hh: In h (sorted_keys pts q)) by (rewrite Es; left; reflexivity).
+    apply sorted_keys_in in Hh as [Vh Eh].
+    assert (Z0: d == 0). { rewrite Ed. unfold dist2. fold q. apply d2_self. }
+    assert (Hle: fst h <= 0).
+    { destruct Hin as [->|Hin]; [cbn [fst]; lra|].
+      pose proof (sorted_head_min _ _ _ Hsort _ Hin) as L.
+      apply key_le_fst in L. cbn [fst] in L. lra. }
+    destruct (Nat.eq_dec (snd h) i) as [E|NE]; [exact E|exfalso].
+    apply (Dp (snd h) i Vh Hi NE). fold q. unfold dist2 in Eh.
+    pose proof (d2_nonneg (nth (snd h) pts p0) q). lra. }
+  destruct Hhead as (h & t & Es & Eh).
+  exists (map snd (firstn k t)). split.
+  - unfold k_nearest. rewrite Es. cbn [firstn map]. rewrite Eh. reflexivity.
+  - assert (E: k_nearest (S k) pts q = i :: map snd (firstn k t)).
+    { unfold k_nearest. rewrite Es. cbn [firstn map]. rewrite Eh. reflexivity. }
+    rewrite E in K. destruct K as (N & L & V & C).
+    inversion N as [|? ? Nn Nd]; subst. unfold closest_others. repeat split.
+    + exact Nd.
+    + exact Nn.
+    + cbn [length] in L. lia.
+    + intros a Ha. apply V. right; exact Ha.
+    + intros a j Ha Hj Hne Hnj. apply C; [right; exact Ha|exact Hj|].
+      intros [Hji|Hji]; [congruence|contradiction].
+Qed.
+
+(** the squared distances kept by median_distance are those of [others_nearest], ascending *)
+Lemma others_d2_spec k pts i :
+  Forall2 (fun d a => d == dist2 pts (nth i pts p0) a) (others_d2 k pts i) (others_nearest k pts i).
+Proof.
+  unfold others_d2, others_nearest, k_nearest.
+  set (q := nth i pts p0).
+  assert (G: forall l, (forall x, In x l -> fst x == dist2 pts q (snd x)) ->
+             Forall2 (fun d a => d == dist2 pts q a) (map fst l) (map snd l)).
+  { induction l as [|x l IH]; intros H; cbn [map]; constructor.
+    - apply H; left; reflexivity.
+    - apply IH. intros y Hy. apply H; right; exact Hy. }
+  specialize (G (firstn (S k) (sorted_keys pts q))).
+  assert (P: forall x, In x (firstn (S k) (sorted_keys pts q)) -> fst x == dist2 pts q (snd x)).
+  { intros x Hx. apply In_firstn_full in Hx. apply sorted_keys_in in Hx. apply Hx. }
+  specialize (G P). destruct G; cbn [tl]; [constructor|assumption].
+Qed.
+
+Lemma others_d2_ascending k pts i : StronglySorted Qle (others_d2 k pts i).
+Proof.
+  unfold others_d2.
+  assert (Hs: StronglySorted Qle (map fst (firstn (S k) (sorted_keys pts (nth i pts p0))))).
+  { apply StronglySorted_map with (R := key_le).
+    - intros x y _ _ L. apply key_le_fst; exact L.
+    - apply StronglySorted_firstn. apply sorted_keys_sorted. }
+  destruct Hs; cbn [tl]; [constructor|assumption].
+Qed.
+
+Lemma others_d2_length k pts i : length (others_d2 k pts i) = Nat.min k (length pts - 1).
+Proof.
+  unfold others_d2. destruct (firstn (S k) (sorted_keys pts (nth i pts p0))) eqn:E.
+  - apply (f_equal (@length _)) in E. rewrite firstn_length, sorted_keys_length in E. cbn [length] in E. cbn [map tl length]. lia.
+  - apply (f_equal (@length _)) in E. rewrite firstn_length, sorted_keys_length in E.
+    cbn [map tl]. rewrite map_length. cbn [length] in E. unfold pt, key in *. lia.
+Qed.
+
+(** sqrt-free test of "m is the mean of the square roots of a and b" *)
+Lemma mean_of_roots_iff m ra rb :
+  0 <= m -> 0 <= ra -> 0 <= rb ->
+  (m == (ra + rb) / 2 <->
+   (sq (sq (2 * m) - sq ra - sq rb) == 4 * sq ra * sq rb /\ sq ra + sq rb <= sq (2 * m))).
+Proof.
+  intros Hm Ha Hb. unfold sq. split.
+  - intros E. assert (E2: 2 * m == ra + rb) by (rewrite E; field).
+    set (t := 2 * m) in *. clearbody t. split; [|nra].
+    rewrite E2. ring.
+  - intros [E L]. set (t := 2 * m) in *.
+    assert (Ht: 0 <= t) by (unfold t; lra).
+    assert (T: t == ra + rb); [|unfold t in T; rewrite <- T; field].
+    clearbody t.
+    set (X := t * t - ra * ra - rb * rb) in *.
+    assert (HX: 0 <= X) by (unfold X; lra).
+    set (Y := 2 * (ra * rb)).
+    assert (HY: 0 <= Y) by (unfold Y; nra).
+    assert (EXY: X * X == Y * Y) by (unfold Y; rewrite E; ring).
+    assert (XY: X == Y) by nra.
+    assert (TT: t * t == (ra + rb) * (ra + rb)) by (unfold X, Y in XY; nra).
+    nra.
+Qed.
